@@ -61,6 +61,7 @@ PROPS = {
                ('u_fgram', [r'^Parser::', r'^lemma_join_', r'^lemma_drop_last_push$'], dict(beyond_property='the token-grammar contract also rejects a parser that starts to accept text which is not a filter, about which the property is silent'))],
         kani=[],
         witness='enum:filter-print-parse',
+        enums_thorough=['enum:filter-eval-exhaustive'],
         design_ref='DESIGN.md section 4, C08',
         level_text=('Proof (Verus), parser side, token level (u_fgram): a specification tok_or / tok_and / tok_term of the token spelling of a filter tree is '
                     'written from the filter grammar -- an `or` is its operands separated by the token or, each operand an `and`: its terms separated by the '
@@ -228,6 +229,7 @@ PROPS = {
               dict(harness='k_cmp_ge', klass='complete', schema='raw', family='filter-cmp:ge', target='filter::nodes::cmp_values(GreatThanEq)', timeout=400),
               dict(harness='k_cmp_lt_bool_literal', klass='complete', schema=None, family=None, target='filter::nodes::cmp_values(LessThan) vs Bool literal', timeout=400)],
         witness='enum:filter-eval',
+        enums_thorough=['enum:filter-eval-exhaustive'],
         design_ref='DESIGN.md section 4, C07',
         level_text=('Proof (Kani/CBMC, complete over the 7 heap-free kinds x all non-NaN f64, one harness per operator) of the comparison '
                     'kernel cmp_values with the real PartialEq/PartialOrd of Value: a comparison holds only if the tag has a value; '
